@@ -302,7 +302,9 @@ let () =
              (* is gb the grammar ga with (some) includes replaced by the parenthesised body? (Subst.grel_b) *)
              let a = Hashtbl.find grammars ga and b = Hashtbl.find grammars gb in
              Printf.sprintf "INLREL\t%d\t%d" (if grel_b (S (S (grammar_size b))) a b then 1 else 0) (if fields_ok_std a then 1 else 0)
-           | ["wf"; gid] -> if well_formed (Hashtbl.find grammars gid) then "WF\t1" else "WF\t0"
+           | ["wf"; gid] ->
+             let g = Hashtbl.find grammars gid in
+             Printf.sprintf "WF\t%d\t%d" (if well_formed g then 1 else 0) (if well_formed_lr g then 1 else 0)
            | other :: _ -> "UNKNOWN\t" ^ other
            | [] -> "EMPTY"
          with
